@@ -141,14 +141,14 @@ PROPS['C10'] = dict(
 )
 PROPS['C08'] = dict(
     modules=['contracts.persist'],
-    bounded=['bounded.persist'],
+    bounded=['bounded.persist', 'bounded.lifecycle'],
     level='other',
     design_ref='DESIGN.md §4 C08',
-    technique='deductive (kernel): region contracts on the storing step of OptionStore.set_option and the -U step of set_from_configure_command (opaque keys/options, override table as a symbolic map with a frame clause); -D/-U sequences and option-file edits through the real OptionStore bounded-exhaustive against a reference model',
-    level_text='Proved for all keys, values and override tables: a per-subproject -D override always stores exactly the value given (whatever the inherited value) and touches no other key; an option given directly stores the validated value and stops yielding; -U of an override removes exactly that override and marks the store dirty, -U of an unknown key is an error. Lifecycle behaviour over command sequences and option-file edits is checked bounded.',
-    level_note='Assumed: key normalisation and option lookup; opaque option objects (set_value as an effect). Region contracts verify one statement of set_option / set_from_configure_command. NOT decided: pickling to disk, --wipe re-derivation from recorded command lines, rollback when configure fails, multi-process histories.',
+    technique='deductive (kernel): region contracts on the storing step of OptionStore.set_option and the -U step of set_from_configure_command (opaque keys/options, override table as a symbolic map with a frame clause); contract on mconf.run_impl (ghost effect trace: an accepted -D/-U is recorded in cmd_line.txt unconditionally and after validation, a rejected one persists nothing); -D/-U sequences and option-file edits through the real OptionStore bounded-exhaustive against a reference model; real setup/configure/--reconfigure/--wipe command sequences on real build directories (in process, --backend=none) bounded against a reference model',
+    level_text='Proved for all keys, values and override tables: a per-subproject -D override always stores exactly the value given (whatever the inherited value) and touches no other key; an option given directly stores the validated value and stops yielding; -U of an override removes exactly that override and marks the store dirty, -U of an unknown key is an error. `meson configure` records every accepted -D/-U in cmd_line.txt (whether or not a stored value changed) after the options were validated, saves coredata iff something changed, and persists nothing when the options are rejected. Lifecycle behaviour over command sequences and option-file edits is checked bounded on real build directories.',
+    level_note='Assumed: key normalisation and option lookup; opaque option objects (set_value as an effect). Region contracts verify one statement of set_option / set_from_configure_command. Conf / coredata / introspection writers / update_cmd_line_file are effects of the ghost trace in run_impl. NOT decided deductively (bounded only): pickling to disk, --wipe re-derivation from recorded command lines, rollback when setup --reconfigure fails, multi-process histories.',
     explanation='kernel: in-memory -D/-U transitions proved; persistence across processes and failure rollback not decided',
-    not_decided=['setup --wipe re-derives the configuration from the recorded command lines', 'a failing configure/reconfigure leaves every persisted value as it was', 'coredata pickling'],
+    not_decided=['setup --wipe re-derives the configuration from the recorded command lines (bounded only)', 'a failing setup --reconfigure leaves every persisted value as it was (bounded only)', 'coredata pickling'],
 )
 PROPS['C01'] = dict(
     modules=['contracts.lang'],
